@@ -4,7 +4,25 @@
 //! usage: harness <property> [--tier quick|thorough] [--seed N] [--n N] [--requests FILE] [extra...]
 mod util;
 
+mod c01;
+mod c02;
+mod c03;
+mod c04;
+mod c05;
 mod c06;
+mod c07;
+mod c08;
+mod c09;
+mod c10;
+mod c11;
+mod c12;
+mod c13;
+mod c14;
+mod c15;
+mod c16;
+mod c17;
+mod c18;
+mod c19;
 
 use util::*;
 
@@ -50,7 +68,25 @@ fn main() {
     install_panic_hook();
     let mut out = Out::new();
     match prop.as_str() {
+        "c01" => c01::run(&args, &mut out),
+        "c02" => c02::run(&args, &mut out),
+        "c03" => c03::run(&args, &mut out),
+        "c04" => c04::run(&args, &mut out),
+        "c05" => c05::run(&args, &mut out),
         "c06" => c06::run(&args, &mut out),
+        "c07" => c07::run(&args, &mut out),
+        "c08" => c08::run(&args, &mut out),
+        "c09" => c09::run(&args, &mut out),
+        "c10" => c10::run(&args, &mut out),
+        "c11" => c11::run(&args, &mut out),
+        "c12" => c12::run(&args, &mut out),
+        "c13" => c13::run(&args, &mut out),
+        "c14" => c14::run(&args, &mut out),
+        "c15" => c15::run(&args, &mut out),
+        "c16" => c16::run(&args, &mut out),
+        "c17" => c17::run(&args, &mut out),
+        "c18" => c18::run(&args, &mut out),
+        "c19" => c19::run(&args, &mut out),
         _ => {
             eprintln!("unknown property {}", prop);
             std::process::exit(2);
